@@ -1026,18 +1026,7 @@ fn jitter(rng: &mut Rng) {
     }
 }
 
-fn stress_one(sc: &Value, idx: u64, seed: u64, out: &mut NdjsonOut) -> Result<(), String> {
-    let cap = sc["cap"].as_u64().unwrap() as usize;
-    let nprod = sc["nprod"].as_u64().unwrap() as i64;
-    let shared = sc["shared"].as_bool().unwrap();
-    let stop = sc["stop"].as_bool().unwrap();
-    let keep = sc["keep"].as_bool().unwrap();
-    let mix = sc["mix"].as_str().unwrap().to_string();
-    let nops = sc["ops"].as_u64().unwrap_or(12);
-    let nonce = idx.wrapping_mul(0x9E37_79B9) ^ seed;
-    let live = Arc::new(AtomicI64::new(0));
-    let (source, track, _fb) = sample_track(MediaKind::Audio, cap);
-    let mut handles: Vec<Handle> = Vec::new();
+fn stress_handles(handles: &mut Vec<Handle>, source: SampleStreamSource, shared: bool, nprod: i64) {
     if shared {
         let a = Arc::new(source);
         for _ in 0..nprod {
@@ -1049,9 +1038,39 @@ fn stress_one(sc: &Value, idx: u64, seed: u64, out: &mut NdjsonOut) -> Result<()
         }
         handles.push(Handle::Own(source));
     }
+}
+
+fn stress_one(sc: &Value, idx: u64, seed: u64, out: &mut NdjsonOut) -> Result<(), String> {
+    let cap = sc["cap"].as_u64().unwrap() as usize;
+    let nprod = sc["nprod"].as_u64().unwrap() as i64;
+    let shared = sc["shared"].as_bool().unwrap();
+    let stop = sc["stop"].as_bool().unwrap();
+    let keep = sc["keep"].as_bool().unwrap();
+    let mix = sc["mix"].as_str().unwrap().to_string();
+    let nops = sc["ops"].as_u64().unwrap_or(12);
+    let chan = sc["variant"].as_str() == Some("chan");
+    let nonce = idx.wrapping_mul(0x9E37_79B9) ^ seed;
+    let live = Arc::new(AtomicI64::new(0));
+    let mut handles: Vec<Handle> = Vec::new();
+    let (track, mut chan_source) = if chan {
+        let (sender, source) = ChannelMediaSource::channel(MediaKind::Audio, cap);
+        let a = Arc::new(sender);
+        for _ in 0..nprod {
+            handles.push(Handle::Chan(a.clone()));
+        }
+        (None, Some(source))
+    } else {
+        let (source, track, _fb) = sample_track(MediaKind::Audio, cap);
+        stress_handles(&mut handles, source, shared, nprod);
+        (Some(track), None)
+    };
+    let shared = shared || chan;
+    let stop_track = stop && !chan;
+    let rdrop = stop && chan;
     let mut head = Log::new();
     head.ev(json!({"ev":"reset","cap":cap,"nsend": if shared {1} else {nprod},"arcs": if shared {nprod} else {0},"scenario":idx,"cfg":sc}));
-    let barrier = Arc::new(std::sync::Barrier::new(nprod as usize + 1 + stop as usize));
+    let _ = &mut chan_source;
+    let barrier = Arc::new(std::sync::Barrier::new(nprod as usize + 1 + stop_track as usize));
     let cutoff = Arc::new(AtomicBool::new(false));
     let mut joins: Vec<std::thread::JoinHandle<(Log, Option<Handle>)>> = Vec::new();
     for (pi, h) in handles.into_iter().enumerate() {
@@ -1066,21 +1085,24 @@ fn stress_one(sc: &Value, idx: u64, seed: u64, out: &mut NdjsonOut) -> Result<()
             b.wait();
             for _ in 0..nops {
                 jitter(&mut rng);
-                let op = match mix.as_str() {
+                let mut op = match mix.as_str() {
                     "send" => 0,
                     "try" => 1,
                     "many" => 2,
                     "clone" => [0, 0, 1, 3][rng.below(4) as usize],
                     _ => [0, 0, 1, 1, 2][rng.below(5) as usize],
                 };
+                if chan && op >= 2 {
+                    op = 0; // the channel sender has neither send_many nor Clone
+                }
                 match op {
                     0 | 1 => {
                         k += 1;
                         let id = p * 1000 + k;
                         let s = frame_counted(id, nonce, seed, &live);
                         log.ev(json!({"ev":"send_start","th":p,"kind": if op == 0 {"send"} else {"try"},"ids":[id]}));
-                        let r = if op == 0 { h.as_ref().unwrap().src().send(s) } else { h.as_ref().unwrap().src().try_send(s) };
-                        log.ev(json!({"ev":"send_end","th":p,"res":ret_of(r)}));
+                        let r = if op == 0 { h.as_ref().unwrap().send(s) } else { h.as_ref().unwrap().try_send(s) };
+                        log.ev(json!({"ev":"send_end","th":p,"res":r}));
                     }
                     2 => {
                         let (a, b2) = (p * 1000 + k + 1, p * 1000 + k + 2);
@@ -1095,7 +1117,7 @@ fn stress_one(sc: &Value, idx: u64, seed: u64, out: &mut NdjsonOut) -> Result<()
                         let n = Handle::Own(h.as_ref().unwrap().src().clone());
                         log.ev(json!({"ev":"clone_end","th":p}));
                         let old = h.replace(n).unwrap();
-                        let kind = if matches!(old, Handle::Arc(_)) { "arc" } else { "own" };
+                        let kind = if matches!(old, Handle::Arc(_) | Handle::Chan(_)) { "arc" } else { "own" };
                         log.ev(json!({"ev":"drop_start","th":p,"kind":kind}));
                         drop(old);
                         log.ev(json!({"ev":"drop_end","th":p}));
@@ -1107,15 +1129,15 @@ fn stress_one(sc: &Value, idx: u64, seed: u64, out: &mut NdjsonOut) -> Result<()
             }
             jitter(&mut rng);
             let old = h.take().unwrap();
-            let kind = if matches!(old, Handle::Arc(_)) { "arc" } else { "own" };
+            let kind = if matches!(old, Handle::Arc(_) | Handle::Chan(_)) { "arc" } else { "own" };
             log.ev(json!({"ev":"drop_start","th":p,"kind":kind}));
             drop(old);
             log.ev(json!({"ev":"drop_end","th":p}));
             (log, None)
         }));
     }
-    if stop {
-        let (b, t) = (barrier.clone(), track.clone());
+    if stop_track {
+        let (b, t) = (barrier.clone(), track.clone().unwrap());
         joins.push(std::thread::spawn(move || {
             let mut rng = Rng(seed ^ nonce ^ 0x5151);
             let mut log = Log::new();
@@ -1131,16 +1153,31 @@ fn stress_one(sc: &Value, idx: u64, seed: u64, out: &mut NdjsonOut) -> Result<()
     }
     let cons = {
         let (b, t, cutoff) = (barrier.clone(), track.clone(), cutoff.clone());
+        let mut src = chan_source.take();
         std::thread::spawn(move || {
             let mut rng = Rng(seed ^ nonce ^ 0xC0C0);
             let mut log = Log::new();
             let waker = Waker::from(Arc::new(ParkWaker(std::thread::current())));
             let mut cx = Context::from_waker(&waker);
+            let drop_after = if rdrop { rng.below(nops * 2) } else { u64::MAX };
+            let mut calls = 0u64;
             b.wait();
             'calls: loop {
                 jitter(&mut rng);
+                if calls == drop_after {
+                    // Receiver::drop under the running senders
+                    log.ev(json!({"ev":"rdrop_start","th":100}));
+                    drop(src.take());
+                    log.ev(json!({"ev":"rdrop_end","th":100}));
+                    break 'calls;
+                }
+                calls += 1;
                 log.ev(json!({"ev":"recv_start"}));
-                let mut fut = t.recv();
+                let mut fut = match (&t, src.as_mut()) {
+                    (Some(t), _) => t.recv(),
+                    (None, Some(s)) => s.next_sample(),
+                    _ => unreachable!(),
+                };
                 loop {
                     // a poll that starts after the cut-off (= after every other thread finished) and is still
                     // Pending is logged as such; the trace spec accepts it only for an empty, open, unstopped queue
@@ -1170,7 +1207,7 @@ fn stress_one(sc: &Value, idx: u64, seed: u64, out: &mut NdjsonOut) -> Result<()
                     }
                 }
             }
-            log
+            (log, src)
         })
     };
     let mut logs = vec![head];
@@ -1194,8 +1231,10 @@ fn stress_one(sc: &Value, idx: u64, seed: u64, out: &mut NdjsonOut) -> Result<()
         }
         std::thread::sleep(Duration::from_micros(200));
     }
-    logs.push(cons.join().map_err(|_| "consumer thread panicked".to_string())?);
+    let (clog, csrc) = cons.join().map_err(|_| "consumer thread panicked".to_string())?;
+    logs.push(clog);
     drop(kept);
+    drop(csrc);
     drop(track);
     let mut tail = Log::new();
     tail.ev(json!({"ev":"teardown","live":live.load(Ordering::SeqCst)}));
